@@ -57,7 +57,7 @@ Example traversal_examples :
   daemon_serve (s2l "mod") ex_t [s2l "mod//../"] = [] /\
   daemon_serve (s2l "mod") ex_t [s2l "mod/d/../../etc"] = [] /\
   daemon_serve (s2l "mod") ex_t [s2l "/etc/passwd"] = [] /\
-  daemon_serve (s2l "mod") ex_t [s2l "mod/d/"] = [s2l "d"; s2l "b.txt"] /\
+  daemon_serve (s2l "mod") ex_t [s2l "mod/d/"] = [s2l "."; s2l "b.txt"] /\
   daemon_serve (s2l "mod") ex_t [s2l "mod/"] = [s2l "."; s2l "a.txt"; s2l "d"; s2l "d/b.txt"; s2l "out"].
 Proof. vm_compute. repeat split; reflexivity. Qed.
 
